@@ -4,7 +4,7 @@ from __future__ import annotations
 import ast
 
 from ..esp import UNKNOWN, NEW, OLD, SELF, run_function, val_str, valuations
-from ..model import Repo, norm
+from ..model import body_nodes, Repo, norm
 from .common import dispatch_ops, op_table, table_stats, trace_str
 
 MUTATORS = {"append", "add", "insert", "extend", "update", "setdefault", "appendleft", "push"}
@@ -173,6 +173,12 @@ def clone_def(repo: Repo, rep):
         good = any((t[1] == "==" and val) or (t[1] == "!=" and not val) for t, val in eq)
         if not good:
             rep.violation("R-CLONE-DEF", f, f.node, "clone returns the copy without having checked that it equals the original (a wrong copy is recorded silently)", trace_str(o), construct="selfcheck")
+            ok = False
+    # deepcopy is called with the object alone: a memo handed in from outside (a registry of "shared" objects) makes
+    # deepcopy return those very objects, i.e. the recorded value aliases live objects again
+    for c in [x for x in body_nodes(f.node) if isinstance(x, ast.Call) and norm(x.func).endswith("deepcopy")]:
+        if len(c.args) + len(c.keywords) != 1:
+            rep.violation("R-CLONE-DEF", f, c, f"`{norm(c)[:60]}` passes a memo to deepcopy: objects registered in it are not copied, the recorded value shares them with the test (a later mutation changes what is written)", construct="deepcopy-memo")
             ok = False
     # the failing edge raises UsageError
     raised = [o for o in excs if "UsageError" in str(o.ret)]
